@@ -34,7 +34,8 @@ for _pid, _txt in {
            "proxy gives up itself (silent nodes), a client that reads late and one that never reads (thousands of 20 KiB answers queued); "
            "Pending.tla (the stream-id pool and pending map of a backend connection, one action per container operation) checked by TLC, and call/return "
            "histories of the real table under concurrent goroutines validated against it (TLC searches the interleaving of the unobservable steps): a stored request "
-           "must be found under its stream id exactly once",
+           "must be found under its stream id exactly once; Conn.tla (the connection object) likewise: the wire carries the accepted frames in order, each once, "
+           "nothing accepted is dropped while the connection is open, Write fails only on a closed connection",
     "C02": "replies carry the token and node of the attempt they answer, on the submitting client's stream; backend stream ids are never reused while in use; "
            "many clients with equal stream ids, delayed and reordered responses; a volume stage that uses every backend stream id of a connection and "
            "answers a heartbeat after the proxy gave up on it; pipelined and retried writes under a consistency override; short-lived clients that hang up with responses outstanding; "
@@ -217,8 +218,12 @@ CHECKS["C12"] = dict(
 CHECKS["C17"] = dict(
     category="exploration",
     technique="TLA+ spec Hostile.tla (classes of hostile client/backend behaviour, allowed offender outcomes, ProcessAlive) enumerated by TLC; sequences "
-              "replayed against the real proxy binary with liveness and canary checks",
-    text="every abstract class of hostile client input (truncated/oversized/zero declared lengths, garbage, response direction, wrong/unknown opcodes and "
+              "replayed against the real proxy binary with liveness and canary checks; design-level spec Conn.tla (the connection object: callers of Write / Close, "
+              "writer, reader, peer) model-checked with TLC incl. liveness, histories of the real proxycore.Conn validated by TLC against TraceConn.tla",
+    text="Conn.tla: once a connection is closed or its peer gone nobody stays blocked in Write, writer and reader end, recv.Closing is called exactly once - "
+         "checked on the model for every interleaving and on recorded histories of the real object (peer that stalls until the 1024-entry queue is full, Close and "
+         "peer loss while callers wait, concurrent Close, a Receiver that refuses a frame); "
+         "every abstract class of hostile client input (truncated/oversized/zero declared lengths, garbage, response direction, wrong/unknown opcodes and "
          "versions, compression flag abuse, malformed string/map/batch lengths, boundary values in every length / count field of QUERY, PREPARE, EXECUTE, BATCH, REGISTER, STARTUP and "
          "AUTH_RESPONSE bodies, hostile USE / PREPARE keyspace / query text / REGISTER / STARTUP / "
          "AUTH_RESPONSE contents) and hostile backend reply (unknown stream, wrong opcode, short error, garbage, unsolicited event, truncated result, "
